@@ -353,7 +353,9 @@ map_linux_arm(struct os_init_data *ctl)
 		status = set_linux_direct(ctl, page_base.addr);
 		if (status != ADDRXLAT_OK)
 			clear_error(ctl->ctx);
-	}
+	} else
+		/* Failure to resolve _stext is not fatal. */
+		clear_error(ctl->ctx);
 
 	return ADDRXLAT_OK;
 }
